@@ -524,6 +524,7 @@ type c11Case struct {
 	respAcc        string
 	wrap           bool
 	wrapTok        string
+	wrapJWT        string // when set, the wrapping token is handed out in JWT form; its jti claim is wrapTok
 	wrapAcc        string
 	wrappedAcc     string
 	secret         bool
@@ -586,6 +587,9 @@ func (c *c11Case) buildInput() *logical.LogInput {
 		if c.wrap {
 			resp.WrapInfo = &wrapping.ResponseWrapInfo{TTL: 5 * time.Minute, Token: c.wrapTok, Accessor: c.wrapAcc, WrappedAccessor: c.wrappedAcc,
 				CreationTime: time.Unix(1700000100, 0).UTC(), CreationPath: "auth/token/create"}
+			if c.wrapJWT != "" {
+				resp.WrapInfo.Token, resp.WrapInfo.Format = c.wrapJWT, "jwt"
+			}
 		}
 		if c.secret {
 			resp.Secret = &logical.Secret{LeaseID: c.leaseID, LeaseOptions: logical.LeaseOptions{TTL: time.Hour, Renewable: true},
@@ -726,6 +730,13 @@ func TestVerif_C11_AuditFormat(t *testing.T) {
 				c.wrapTok, c.wrapAcc = token("response.wrap_info.token"), accessor("response.wrap_info.accessor")
 				if rapid.Bool().Draw(rt, "wrappedAccessor") {
 					c.wrappedAcc = accessor("response.wrap_info.wrapped_accessor")
+				}
+				if rapid.IntRange(0, 2).Draw(rt, "wrapFormatJWT") == 0 {
+					// wrap format "jwt": the client gets a signed JWT whose jti claim is the wrapping token id
+					// (built like Core.wrapInCubbyhole does; the signature bytes are irrelevant to the formatter)
+					enc := base64.RawURLEncoding.EncodeToString
+					claims, _ := json.Marshal(map[string]any{"jti": c.wrapTok, "iss": "http://127.0.0.1:8200", "nbf": 1700000100, "type": "wrapping", "addr": "http://127.0.0.1:8200", "accessor": "", "namespace": ""})
+					c.wrapJWT = enc([]byte(`{"alg":"ES512","typ":"JWT"}`)) + "." + enc(claims) + "." + enc(bytes.Repeat([]byte{0x5a}, 132))
 				}
 			}
 			c.secret = rapid.IntRange(0, 3).Draw(rt, "secret") == 0
@@ -895,6 +906,9 @@ func TestVerif_C11_AuditFormat(t *testing.T) {
 				}
 				if c.hasResp && c.wrap {
 					wTok, wAcc, wwAcc = hmTok(c.wrapTok), hmAcc(c.wrapAcc), hmAcc(c.wrappedAcc)
+					if c.wrapJWT != "" {
+						wTok = hmTok(c.wrapJWT)
+					}
 				}
 				if c.hasResp && c.secret {
 					lease = c.leaseID
